@@ -69,6 +69,10 @@ CFG = {
              "(plus buffers the engine allocates for slice results): typed-array constructors of all 11 kinds at aligned and "
              "misaligned offsets/lengths, DataView constructors, element get/set with in-range, negative, out-of-range, huge, "
              "fractional and '-0' keys, set(array-like|typed array, offset) incl. overlapping same-buffer sources and views at "
+             "non-zero byteOffset -- 2 of 5 cases start with a set(typedArray) scenario that walks ALL 121 ordered (source kind, "
+             "target kind) pairs systematically (every pair >= 9 times per quick run, same and distinct buffers, with and without "
+             "byteOffset) with source elements from the boundary classes of the SOURCE kind; corpus/C17/sweep_settyped_* runs the "
+             "same 121 pairs first on every run; views at "
              "non-zero byteOffset, copyWithin, fill, slice, subarray (clamping), reverse, sort, DataView get*/set* of every kind "
              "with littleEndian true/false/omitted, ArrayBuffer.prototype.slice, Go-side writes through the owner's []byte and "
              "Go-side Detach(), arguments whose valueOf detaches a buffer; values from boundary classes (+-0, NaN, +-Inf, 2^31, "
